@@ -9,5 +9,8 @@ CONSTANTS
   WriterFollowsOwnSCS = TRUE
   HsOrder = "free"
   HsReadExact = TRUE
+  ScsSids <- SidClasses
+  ReaderScsAnySid = TRUE
+  LazyFlushTypes = {}
 INVARIANTS NoDesync HsExact Emit
 CHECK_DEADLOCK FALSE
